@@ -7,10 +7,13 @@ from lib import core
 from lib.core import exc_name
 
 ID = "C19"
-AUDIT_IMPORTS = ["HypatiaProofs.Properties.C19"]
+AUDIT_IMPORTS = ["HypatiaProofs.Properties.C19", "HypatiaProofs.Properties.C19Index"]
 THEOREMS = ["Hyp.Concurrency." + t for t in (
     "c19_conflict_no_trace", "c19_both_visible_serial", "c19_mergeKey_cases", "c19_merge_is_serial",
-    "c19_length_merge", "c19_write_skew_needs_rw")]
+    "c19_length_merge", "c19_write_skew_needs_rw")] + ["Hyp.CIdx." + t for t in (
+    "c19_field_init", "c19_field_txn_refines", "c19_field_conflict_or_serial", "c19_field_serial_refines",
+    "c19_field_merged_observes_serial", "c19_d20_unrepaired_loses_update", "c19_d20_repaired_conflicts",
+    "c19_replacement_conflicts", "c19_keyword_conflict_or_serial_partial")]
 CASES = {"quick": 640, "thorough": 12000}
 BUDGET_S = {"quick": 50, "thorough": 800}
 BATCH = 10
